@@ -298,8 +298,10 @@ config_parse_regress_option_env(struct config *cf, const char *path)
 	/* Do early interpolation to expand rdomain(s). */
 	template = arena_sprintf(&s, "${%s}", name);
 	str = config_interpolate_early(cf, template);
-	if (str == NULL)
+	if (str == NULL) {
+		lexer_error(cf->lx, 0, "regress '%s': invalid environment", path);
 		return CONFIG_ERROR;
+	}
 	variable_value_init(&intval, STRING);
 	intval.str = str;
 	variable_value_clear(&va->va_val);
